@@ -12,6 +12,9 @@ the regenerated configuration (`genHCfg`, `genECfg`, `genUCfg`).
 import Olla.Model.Breaker
 import Olla.Spec.C08
 
+set_option linter.unusedSimpArgs false
+set_option linter.unnecessarySimpa false
+
 namespace Olla.Props.C08
 open Olla.Model.Breaker Olla.Spec.C08
 
@@ -39,6 +42,9 @@ private structure HInv (v : Variant) (c : HCfg) (g : Ghost) (s : HealthCB) : Pro
   closed : s.isOpen = false → s.lastAttempt = none ∧ g.lastAdmit = none
   la : ∀ a, s.lastAttempt = some a → ∃ a', g.lastAdmit = some a' ∧ a ≤ a' ∧ (v = .fixed → a = a')
   adm : ∀ a', g.lastAdmit = some a' → a' ≤ s.now ∧ (s.lastAttempt = none → a' ≤ s.lastFailure)
+
+private theorem hinv_init (v : Variant) (c : HCfg) (t0 : Int) : HInv v c (Ghost.init t0) (HealthCB.init t0) := by
+  constructor <;> simp [Ghost.init, HealthCB.init, HealthCB.phase]
 
 private theorem hinv_step (v : Variant) (c : HCfg) (g : Ghost) (s : HealthCB) (op : Op) (h : HInv v c g s) :
     HInv v c (g.step (healthParams c) op ((healthM v c).obs s op)) ((healthM v c).step s op).1 := by
@@ -124,5 +130,821 @@ private theorem health_clause_probeLimit_fixed (c : HCfg) (hw : c.window ≤ c.t
       · simp [hw']
       · simp [hw', ha]; omega
   · simp [hto]
+
+/-! ## olla engine breaker -/
+
+private structure EInv (c : ECfg) (g : Ghost) (s : EngineCB) : Prop where
+  now : g.now = s.now
+  fails : g.consecFails = s.failures
+  phase : g.phase = s.state
+  lf : g.lastFailAt = some s.lastFailure ∨ (g.lastFailAt = none ∧ s.state = .closed)
+  thr : s.state ≠ .closed → c.threshold ≤ s.failures
+
+private theorem einv_init (c : ECfg) (t0 : Int) : EInv c (Ghost.init t0) (EngineCB.init t0) := by
+  constructor <;> simp [Ghost.init, EngineCB.init]
+
+private theorem einv_step (c : ECfg) (g : Ghost) (s : EngineCB) (op : Op) (h : EInv c g s) :
+    EInv c (g.step (engineParams c) op ((engineM c).obs s op)) ((engineM c).step s op).1 := by
+  obtain ⟨h1, h2, h3, h4, h5⟩ := h
+  obtain ⟨f, lf, st, now⟩ := s
+  cases op with
+  | tick d =>
+    constructor <;> simp_all [Ghost.step, Ghost.nowAfter, Ghost.failsAfter, Ghost.lastFailAfter, Machine.obs, engineM, EngineCB.step]
+  | succ =>
+    constructor <;> simp_all [Ghost.step, Ghost.nowAfter, Ghost.failsAfter, Ghost.lastFailAfter, Machine.obs, engineM, EngineCB.step, EngineCB.recordSuccess]
+    rcases h4 with h | h <;> simp [h]
+  | fail =>
+    by_cases ht : f + 1 ≥ c.threshold
+    · constructor <;> simp_all [Ghost.step, Ghost.nowAfter, Ghost.failsAfter, Ghost.lastFailAfter, Machine.obs, engineM, EngineCB.step, EngineCB.recordFailure]
+    · constructor <;> simp_all [Ghost.step, Ghost.nowAfter, Ghost.failsAfter, Ghost.lastFailAfter, Machine.obs, engineM, EngineCB.step, EngineCB.recordFailure, -Nat.not_le]
+      all_goals (by_cases hc : st = Phase.closed; exact hc; have := h5 hc; omega)
+  | ask =>
+    cases st
+    · constructor <;> simp_all [Ghost.step, Ghost.nowAfter, Ghost.failsAfter, Ghost.lastFailAfter, Machine.obs, engineM, EngineCB.step, EngineCB.isOpenCall]
+    · by_cases hto : now - lf > c.timeout
+      · constructor <;> simp_all [Ghost.step, Ghost.nowAfter, Ghost.failsAfter, Ghost.lastFailAfter, Machine.obs, engineM, EngineCB.step, EngineCB.isOpenCall, -Int.not_lt, -Int.not_le]
+      · constructor <;> simp_all [Ghost.step, Ghost.nowAfter, Ghost.failsAfter, Ghost.lastFailAfter, Machine.obs, engineM, EngineCB.step, EngineCB.isOpenCall, -Int.not_lt, -Int.not_le]
+    · constructor <;> simp_all [Ghost.step, Ghost.nowAfter, Ghost.failsAfter, Ghost.lastFailAfter, Machine.obs, engineM, EngineCB.step, EngineCB.isOpenCall]
+
+private theorem engine_clause (c : ECfg) (g : Ghost) (s : EngineCB) (op : Op) (h : EInv c g s) (k : Clause) :
+    clauseOk (engineParams c) k g op ((engineM c).obs s op) = true := by
+  obtain ⟨h1, h2, h3, h4, h5⟩ := h
+  obtain ⟨f, lf, st, now⟩ := s
+  cases k with
+  | probeLimit => cases op <;> simp [clauseOk, engineParams, Ghost.policyAllows]
+  | clears => cases op <;> simp [clauseOk, Machine.obs, engineM, EngineCB.step, EngineCB.recordSuccess]
+  | closes => cases op <;> simp [clauseOk, Machine.obs, engineM, EngineCB.step, EngineCB.recordSuccess]
+  | neverStuck => cases op <;> simp [clauseOk, Machine.obs, engineM, EngineCB.step, EngineCB.recordSuccess]
+  | reopens =>
+    cases op <;> try (simp [clauseOk]; done)
+    cases st <;> simp_all [clauseOk, Machine.obs, engineM, EngineCB.step, EngineCB.recordFailure]
+    all_goals omega
+  | opensOnly =>
+    cases op <;> cases st <;> simp_all [clauseOk, Machine.obs, engineM, EngineCB.step, EngineCB.recordFailure, EngineCB.recordSuccess, EngineCB.isOpenCall, engineParams]
+  | holds =>
+    cases op <;> try (simp [clauseOk]; done)
+    cases st <;> simp_all [clauseOk, Machine.obs, engineM, EngineCB.step, EngineCB.isOpenCall, engineParams, Ghost.withinHold]
+    by_cases hto : c.timeout < now - lf
+    · left; exact hto
+    · right; rw [if_neg hto]
+  | admits =>
+    cases op <;> try (simp [clauseOk]; done)
+    cases st <;> simp_all [clauseOk, Machine.obs, engineM, EngineCB.step, EngineCB.isOpenCall, engineParams, Ghost.elapsed, Ghost.policyAllows]
+    done
+
+/-! ## unifier.CircuitBreaker -/
+
+private structure UInv (c : UCfg) (g : Ghost) (s : UnifierCB) : Prop where
+  now : g.now = s.now
+  phase : g.phase = s.state
+  fails : s.state = .closed → g.consecFails = s.failures
+  lf : g.lastFailAt = some s.lastFailure ∨ (g.lastFailAt = none ∧ s.state = .closed)
+  lfnow : s.state ≠ .closed → s.lastFailure ≤ s.now
+  opened : s.state = .opened → g.admitted = 0 ∧ s.halfOpen = 0 ∧ g.succs = 0
+  half : s.state = .halfOpen → g.admitted = min s.halfOpen c.halfOpenRequests ∧ g.succs ≤ s.successes ∧ s.failures = 0
+  rec1 : g.recov = 1 → s.state = .opened → s.now - s.lastFailure > c.openDuration
+  rec2 : g.recov ≥ 2 → s.state ≠ .opened ∧ (s.state = .halfOpen → s.successes + 2 ≥ g.recov)
+
+private theorem uinv_init (c : UCfg) (t0 : Int) : UInv c (Ghost.init t0) (UnifierCB.init t0) := by
+  constructor <;> simp [Ghost.init, UnifierCB.init]
+
+macro "fin" : tactic => `(tactic| first
+  | omega
+  | (intros; omega)
+  | (split <;> first | omega | (intros; omega) | (split <;> first | omega | (intros; omega)))
+  | (intros; split <;> first | omega | (split <;> omega)))
+
+private theorem uinv_step (v : Variant) (c : UCfg) (g : Ghost) (s : UnifierCB) (op : Op) (h : UInv c g s) :
+    UInv c (g.step (unifierParams c) op ((unifierM v c).obs s op)) ((unifierM v c).step s op).1 := by
+  obtain ⟨h1, h2, h3, h4, h5, h6, h7, h8, h9⟩ := h
+  obtain ⟨st, f, su, ho, lf, now⟩ := s
+  cases op with
+  | tick d =>
+    cases st <;> constructor <;> simp_all [Ghost.step, Ghost.nowAfter, Ghost.failsAfter, Ghost.lastFailAfter, Ghost.admittedAfter, Ghost.succsAfter, Ghost.recovAfter, Machine.obs, unifierM, UnifierCB.step, unifierParams]
+    all_goals fin
+  | fail =>
+    cases st
+    · by_cases ht : f + 1 ≥ c.failureThreshold
+      · constructor <;> simp_all [Ghost.step, Ghost.nowAfter, Ghost.failsAfter, Ghost.lastFailAfter, Ghost.admittedAfter, Ghost.succsAfter, Ghost.recovAfter, Machine.obs, unifierM, UnifierCB.step, UnifierCB.recordFailure, UnifierCB.toOpen, unifierParams]
+      · constructor <;> simp_all [Ghost.step, Ghost.nowAfter, Ghost.failsAfter, Ghost.lastFailAfter, Ghost.admittedAfter, Ghost.succsAfter, Ghost.recovAfter, Machine.obs, unifierM, UnifierCB.step, UnifierCB.recordFailure, UnifierCB.toOpen, unifierParams, -Nat.not_le]
+    · constructor <;> simp_all [Ghost.step, Ghost.nowAfter, Ghost.failsAfter, Ghost.lastFailAfter, Ghost.admittedAfter, Ghost.succsAfter, Ghost.recovAfter, Machine.obs, unifierM, UnifierCB.step, UnifierCB.recordFailure, UnifierCB.toOpen, unifierParams]
+    · constructor <;> simp_all [Ghost.step, Ghost.nowAfter, Ghost.failsAfter, Ghost.lastFailAfter, Ghost.admittedAfter, Ghost.succsAfter, Ghost.recovAfter, Machine.obs, unifierM, UnifierCB.step, UnifierCB.recordFailure, UnifierCB.toOpen, unifierParams]
+  | succ =>
+    cases st
+    · constructor <;> simp_all [Ghost.step, Ghost.nowAfter, Ghost.failsAfter, Ghost.lastFailAfter, Ghost.admittedAfter, Ghost.succsAfter, Ghost.recovAfter, Machine.obs, unifierM, UnifierCB.step, unifierParams, UnifierCB.recordSuccess]
+      all_goals (try fin)
+    · cases v <;> constructor <;> simp_all [Ghost.step, Ghost.nowAfter, Ghost.failsAfter, Ghost.lastFailAfter, Ghost.admittedAfter, Ghost.succsAfter, Ghost.recovAfter, Machine.obs, unifierM, UnifierCB.step, unifierParams, UnifierCB.recordSuccess]
+      all_goals (try fin)
+    · by_cases ht : su + 1 ≥ c.successThreshold
+      · constructor <;> simp_all [Ghost.step, Ghost.nowAfter, Ghost.failsAfter, Ghost.lastFailAfter, Ghost.admittedAfter, Ghost.succsAfter, Ghost.recovAfter, Machine.obs, unifierM, UnifierCB.step, unifierParams, UnifierCB.recordSuccess, UnifierCB.toClosed]
+        all_goals (try fin)
+      · constructor <;> simp_all [Ghost.step, Ghost.nowAfter, Ghost.failsAfter, Ghost.lastFailAfter, Ghost.admittedAfter, Ghost.succsAfter, Ghost.recovAfter, Machine.obs, unifierM, UnifierCB.step, unifierParams, UnifierCB.recordSuccess, UnifierCB.toClosed, -Nat.not_le]
+        all_goals (try fin)
+  | ask =>
+    cases st
+    · constructor <;> simp_all [Ghost.step, Ghost.nowAfter, Ghost.failsAfter, Ghost.lastFailAfter, Ghost.admittedAfter, Ghost.succsAfter, Ghost.recovAfter, Machine.obs, unifierM, UnifierCB.step, unifierParams, UnifierCB.allow]
+      all_goals (try fin)
+    · by_cases hto : now - lf > c.openDuration
+      · constructor <;> simp_all [Ghost.step, Ghost.nowAfter, Ghost.failsAfter, Ghost.lastFailAfter, Ghost.admittedAfter, Ghost.succsAfter, Ghost.recovAfter, Machine.obs, unifierM, UnifierCB.step, unifierParams, UnifierCB.allow, UnifierCB.allowHalfOpen, UnifierCB.toHalfOpen, -Int.not_lt, -Int.not_le]
+        all_goals (try fin)
+      · constructor <;> simp_all [Ghost.step, Ghost.nowAfter, Ghost.failsAfter, Ghost.lastFailAfter, Ghost.admittedAfter, Ghost.succsAfter, Ghost.recovAfter, Machine.obs, unifierM, UnifierCB.step, unifierParams, UnifierCB.allow, UnifierCB.allowHalfOpen, UnifierCB.toHalfOpen, -Int.not_lt, -Int.not_le]
+        all_goals (try fin)
+    · constructor <;> simp_all [Ghost.step, Ghost.nowAfter, Ghost.failsAfter, Ghost.lastFailAfter, Ghost.admittedAfter, Ghost.succsAfter, Ghost.recovAfter, Machine.obs, unifierM, UnifierCB.step, unifierParams, UnifierCB.allow, UnifierCB.allowHalfOpen]
+      all_goals (try fin)
+
+private theorem unifier_clause (v : Variant) (c : UCfg) (g : Ghost) (s : UnifierCB) (op : Op) (h : UInv c g s) (k : Clause)
+    (hk : k ≠ .clears ∨ v = .fixed) : clauseOk (unifierParams c) k g op ((unifierM v c).obs s op) = true := by
+  obtain ⟨h1, h2, h3, h4, h5, h6, h7, h8, h9⟩ := h
+  obtain ⟨st, f, su, ho, lf, now⟩ := s
+  cases k with
+  | clears =>
+    have hv : v = .fixed := by rcases hk with h | h; exact absurd rfl h; exact h
+    subst hv
+    cases op <;> try (simp [clauseOk]; done)
+    cases st <;> simp_all [clauseOk, Machine.obs, unifierM, UnifierCB.step, UnifierCB.recordSuccess, UnifierCB.toClosed]
+    all_goals (first | fin | (split <;> simp_all <;> omega) | (split <;> simp_all))
+  | probeLimit =>
+    cases op <;> try (simp [clauseOk]; done)
+    cases st <;> simp_all [clauseOk, Machine.obs, unifierM, UnifierCB.step, UnifierCB.allow, UnifierCB.allowHalfOpen, UnifierCB.toHalfOpen, unifierParams, Ghost.policyAllows]
+    all_goals (first | fin | (split <;> simp_all <;> omega) | (split <;> simp_all))
+  | closes =>
+    cases op <;> try (simp [clauseOk]; done)
+    cases st <;> simp_all [clauseOk, Machine.obs, unifierM, UnifierCB.step, UnifierCB.recordSuccess, UnifierCB.toClosed, unifierParams]
+    all_goals (first | fin | (split <;> simp_all <;> omega) | (split <;> simp_all))
+  | neverStuck =>
+    cases op <;> try (simp [clauseOk]; done)
+    cases st <;> simp_all [clauseOk, Machine.obs, unifierM, UnifierCB.step, UnifierCB.recordSuccess, UnifierCB.toClosed, unifierParams]
+    all_goals (first | fin | (split <;> simp_all <;> omega) | (split <;> simp_all))
+  | reopens =>
+    cases op <;> try (simp [clauseOk]; done)
+    cases st <;> simp_all [clauseOk, Machine.obs, unifierM, UnifierCB.step, UnifierCB.recordFailure, UnifierCB.toOpen]
+    all_goals (first | fin | (split <;> simp_all <;> omega) | (split <;> simp_all))
+  | opensOnly =>
+    cases op <;> cases st <;> simp_all [clauseOk, Machine.obs, unifierM, UnifierCB.step, UnifierCB.recordFailure, UnifierCB.recordSuccess, UnifierCB.allow, UnifierCB.allowHalfOpen, UnifierCB.toOpen, UnifierCB.toClosed, UnifierCB.toHalfOpen, unifierParams]
+    all_goals (first | fin | (split <;> simp_all <;> omega) | (split <;> simp_all))
+  | holds =>
+    cases op <;> try (simp [clauseOk]; done)
+    cases st <;> simp_all [clauseOk, Machine.obs, unifierM, UnifierCB.step, UnifierCB.allow, unifierParams, Ghost.withinHold]
+    all_goals (first | fin | (split <;> simp_all <;> omega) | (split <;> simp_all))
+  | admits =>
+    cases op <;> try (simp [clauseOk]; done)
+    cases st <;> simp_all [clauseOk, Machine.obs, unifierM, UnifierCB.step, UnifierCB.allow, UnifierCB.allowHalfOpen, UnifierCB.toHalfOpen, unifierParams, Ghost.elapsed, Ghost.policyAllows]
+    all_goals (first | fin | (split <;> simp_all <;> omega) | (split <;> simp_all))
+
+/-! ## half-open races (interleavings of atomic micro-steps) -/
+
+/-! pinned unifier: shared-state-only invariant -/
+private def UBoundInv (n : Nat) (sh : UShared) : Prop :=
+  sh.admitted ≤ n * sh.resets + min sh.halfOpen n ∧ sh.state ≠ .closed
+
+private theorem uMicro_pinned_bound (n i : Nat) (sh : UShared) (pc : UPc) (h : UBoundInv n sh) :
+    UBoundInv n (uMicro .pinned n i sh pc).1 := by
+  obtain ⟨st, ho, ow, rs, ad⟩ := sh
+  obtain ⟨h, hc⟩ := h
+  simp only at h hc
+  cases pc <;> cases st <;> cases ow <;> simp_all [uMicro, UBoundInv, Nat.mul_succ] <;>
+    (try (generalize n * rs = x at *; first | omega | (split <;> omega)))
+
+private theorem uRace_pinned_bound (n : Nat) : ∀ (sched : List Nat) (sh : UShared) (ts : List UPc), UBoundInv n sh →
+    UBoundInv n (uRace .pinned n (sh, ts) sched).1 := by
+  intro sched
+  induction sched with
+  | nil => intro sh ts h; simpa [uRace] using h
+  | cons i rest ih =>
+    intro sh ts h
+    simp only [uRace]
+    cases hti : ts[i]? with
+    | none => simpa using ih sh ts h
+    | some pc => simpa using ih _ _ (uMicro_pinned_bound n i sh pc h)
+
+/-- Pinned code, any number of callers, any interleaving: the callers let through are bounded only by
+    `HalfOpenRequests × (1 + number of times the counter was reset)` — every caller that loaded
+    `Open` resets the counter again. -/
+theorem unifier_half_open_race_pinned_bound (n m : Nat) (sched : List Nat) :
+    let r := uRace .pinned n (uRaceInit m) sched
+    r.1.admitted ≤ n * (r.1.resets + 1) := by
+  have h := uRace_pinned_bound n sched (uRaceInit m).1 (uRaceInit m).2 (by simp [UBoundInv, uRaceInit])
+  simp only [UBoundInv] at h
+  have h1 := h.1
+  simp only [Nat.mul_succ]
+  generalize n * (uRace .pinned n (uRaceInit m) sched).1.resets = x at *
+  show _ ≤ x + n
+  have : (uRace Variant.pinned n ((uRaceInit m).fst, (uRaceInit m).snd) sched) = (uRace Variant.pinned n (uRaceInit m) sched) := rfl
+  rw [this] at h1
+  omega
+
+/-- the schedule: all `m` callers load `Open` first, then run to completion one after the other -/
+def overAdmitSchedule (m : Nat) : List Nat :=
+  List.range m ++ (List.range m).flatMap (fun i => List.replicate 6 i)
+
+theorem unifier_half_open_race_witness :
+    (uRace .pinned genUCfg.halfOpenRequests (uRaceInit (genUCfg.halfOpenRequests + 1))
+      (overAdmitSchedule (genUCfg.halfOpenRequests + 1))).1.admitted = genUCfg.halfOpenRequests + 1 := by decide
+
+
+private def Tp (sh : UShared) (i : Nat) : UPc → Prop
+  | .recheck => sh.owner = some i
+  | .stFailures | .stSuccesses | .stHalfOpen | .stState => sh.owner = some i ∧ sh.state = .opened
+  | .unlock => sh.owner = some i ∧ sh.state = .halfOpen
+  | .add => sh.state = .halfOpen
+  | .sawOpen => False
+  | _ => True
+
+private structure FInv (n : Nat) (sh : UShared) (ts : List UPc) : Prop where
+  notClosed : sh.state ≠ .closed
+  opened : sh.state = .opened → sh.halfOpen = 0 ∧ sh.admitted = 0
+  bound : sh.admitted ≤ min sh.halfOpen n
+  threads : ∀ i pc, ts[i]? = some pc → Tp sh i pc
+
+private theorem finv_step (n j : Nat) (sh : UShared) (ts : List UPc) (pcj : UPc) (hj : ts[j]? = some pcj) (h : FInv n sh ts) :
+    FInv n (uMicro .fixed n j sh pcj).1 (ts.set j (uMicro .fixed n j sh pcj).2) := by
+  obtain ⟨hA, hB, hC, hD⟩ := h
+  have hTj := hD j pcj hj
+  have hjl : j < ts.length := by
+    rcases Nat.lt_or_ge j ts.length with h | h
+    · exact h
+    · simp [List.getElem?_eq_none h] at hj
+  -- threads other than j keep their pc; what they need from the shared state
+  have others : ∀ (sh' : UShared) (pc' : UPc), Tp sh' j pc' →
+      (∀ i pc, i ≠ j → ts[i]? = some pc → Tp sh i pc → Tp sh' i pc) →
+      ∀ i pc, (ts.set j pc')[i]? = some pc → Tp sh' i pc := by
+    intro sh' pc' hnew hpres i pc hi
+    by_cases hij : j = i
+    · subst hij; simp [List.getElem?_set, hjl] at hi; subst hi; exact hnew
+    · rw [List.getElem?_set_ne hij] at hi
+      exact hpres i pc (fun h => hij h.symm) hi (hD i pc hi)
+  obtain ⟨st, ho, ow, rs, ad⟩ := sh
+  cases pcj with
+  | start =>
+    cases st
+    · simp at hA
+    · refine ⟨by simpa [uMicro] using hA, by simpa [uMicro] using hB, by simpa [uMicro] using hC, ?_⟩
+      apply others
+      · simp [uMicro, Tp]
+      · intro i pc _ _ h; simpa [uMicro] using h
+    · refine ⟨by simp [uMicro], by simp [uMicro], by simpa [uMicro] using hC, ?_⟩
+      apply others
+      · simp [uMicro, Tp]
+      · intro i pc _ _ h; simpa [uMicro] using h
+  | sawOpen => exact absurd hTj (by simp [Tp])
+  | done b =>
+    refine ⟨by simpa [uMicro] using hA, by simpa [uMicro] using hB, by simpa [uMicro] using hC, ?_⟩
+    apply others
+    · simp [uMicro, Tp]
+    · intro i pc _ _ h; simpa [uMicro] using h
+  | lock =>
+    cases ow with
+    | some o =>
+      refine ⟨by simpa [uMicro] using hA, by simpa [uMicro] using hB, by simpa [uMicro] using hC, ?_⟩
+      apply others
+      · simp [uMicro, Tp]
+      · intro i pc _ _ h; simpa [uMicro] using h
+    | none =>
+      refine ⟨by simpa [uMicro] using hA, by simpa [uMicro] using hB, by simpa [uMicro] using hC, ?_⟩
+      apply others
+      · simp [uMicro, Tp]
+      · intro i pc hne _ h; clear others hD hj; cases pc <;> simp_all [uMicro, Tp]
+  | recheck =>
+    simp only [Tp] at hTj
+    refine ⟨by simpa [uMicro] using hA, by simpa [uMicro] using hB, by simpa [uMicro] using hC, ?_⟩
+    apply others
+    · cases st <;> simp_all [uMicro, Tp]
+    · intro i pc _ _ h; simpa [uMicro] using h
+  | stFailures =>
+    simp only [Tp] at hTj
+    refine ⟨by simpa [uMicro] using hA, by simpa [uMicro] using hB, by simpa [uMicro] using hC, ?_⟩
+    apply others
+    · clear others hD hj; simp_all [uMicro, Tp]
+    · intro i pc _ _ h; simpa [uMicro] using h
+  | stSuccesses =>
+    simp only [Tp] at hTj
+    refine ⟨by simpa [uMicro] using hA, by simpa [uMicro] using hB, by simpa [uMicro] using hC, ?_⟩
+    apply others
+    · clear others hD hj; simp_all [uMicro, Tp]
+    · intro i pc _ _ h; simpa [uMicro] using h
+  | stHalfOpen =>
+    simp only [Tp] at hTj
+    have hb := hB hTj.2
+    refine ⟨by simpa [uMicro] using hA, by simp_all [uMicro], by simp_all [uMicro], ?_⟩
+    apply others
+    · clear others hD hj; simp_all [uMicro, Tp]
+    · intro i pc hne _ h; clear others hD hj; cases pc <;> simp_all [uMicro, Tp]
+  | stState =>
+    simp only [Tp] at hTj
+    refine ⟨by simp [uMicro], by simp [uMicro], by simpa [uMicro] using hC, ?_⟩
+    apply others
+    · clear others hD hj; simp_all [uMicro, Tp]
+    · intro i pc hne _ h; clear others hD hj; cases pc <;> simp_all [uMicro, Tp]
+  | unlock =>
+    simp only [Tp] at hTj
+    refine ⟨by simpa [uMicro] using hA, by simpa [uMicro] using hB, by simpa [uMicro] using hC, ?_⟩
+    apply others
+    · clear others hD hj; simp_all [uMicro, Tp]
+    · intro i pc hne _ h; clear others hD hj; cases pc <;> simp_all [uMicro, Tp]
+  | add =>
+    simp only [Tp] at hTj
+    subst hTj
+    refine ⟨by simp [uMicro], by simp [uMicro], ?_, ?_⟩
+    · simp only [uMicro]; simp only at hC; split <;> omega
+    · apply others
+      · simp [uMicro, Tp]
+      · intro i pc hne _ h; clear others hD hj; cases pc <;> simp_all [uMicro, Tp]
+
+private theorem finv_race (n : Nat) : ∀ (sched : List Nat) (sh : UShared) (ts : List UPc), FInv n sh ts →
+    FInv n (uRace .fixed n (sh, ts) sched).1 (uRace .fixed n (sh, ts) sched).2 := by
+  intro sched
+  induction sched with
+  | nil => intro sh ts h; simpa [uRace] using h
+  | cons i rest ih =>
+    intro sh ts h
+    simp only [uRace]
+    cases hti : ts[i]? with
+    | none => simpa using ih sh ts h
+    | some pc => simpa using ih _ _ (finv_step n i sh ts pc hti h)
+
+private theorem finv_init (n m : Nat) : FInv n (uRaceInit m).1 (uRaceInit m).2 := by
+  refine ⟨by simp [uRaceInit], by simp [uRaceInit], by simp [uRaceInit], ?_⟩
+  intro i pc h
+  simp only [uRaceInit, List.getElem?_replicate] at h
+  split at h
+  · cases h; simp [Tp]
+  · cases h
+
+theorem unifier_half_open_race_fixed (n m : Nat) (sched : List Nat) :
+    (uRace .fixed n (uRaceInit m) sched).1.admitted ≤ n := by
+  have h := (finv_race n sched _ _ (finv_init n m)).bound
+  have : (uRace .fixed n ((uRaceInit m).1, (uRaceInit m).2) sched) = uRace .fixed n (uRaceInit m) sched := rfl
+  rw [this] at h
+  omega
+
+/-! health race -/
+private def HTp (t0 w : Int) : HPc → Prop
+  | .cas t | .load t => t0 ≤ t ∧ t < t0 + w
+  | .done _ => True
+
+private def isLoad : HPc → Bool
+  | .load _ => true
+  | _ => false
+
+private structure HRInv (t0 w : Int) (sh : HShared) (ts : List HPc) : Prop where
+  none : sh.lastAttempt = none → sh.admitted = 0 ∧ ∀ pc ∈ ts, isLoad pc = false
+  some : ∀ a, sh.lastAttempt = some a → sh.admitted = 1 ∧ t0 ≤ a
+  threads : ∀ pc ∈ ts, HTp t0 w pc
+
+private theorem hrinv_step (t0 w : Int) (j : Nat) (sh : HShared) (ts : List HPc) (pc : HPc) (hj : ts[j]? = some pc)
+    (h : HRInv t0 w sh ts) : HRInv t0 w (hMicro w sh pc).1 (ts.set j (hMicro w sh pc).2) := by
+  obtain ⟨h1, h2, h3⟩ := h
+  have hmem : pc ∈ ts := List.mem_of_getElem? hj
+  have hpc : HTp t0 w pc := h3 pc hmem
+  have thr : HTp t0 w (hMicro w sh pc).2 → ∀ x ∈ ts.set j (hMicro w sh pc).2, HTp t0 w x := by
+    intro hn x hx
+    rcases List.mem_or_eq_of_mem_set hx with h | h
+    · exact h3 x h
+    · subst h; exact hn
+  obtain ⟨la, ad⟩ := sh
+  cases pc with
+  | done b =>
+    refine ⟨?_, by simpa [hMicro] using h2, thr (by simp [hMicro, HTp])⟩
+    intro hn; have := h1 (by simpa [hMicro] using hn)
+    refine ⟨by simpa [hMicro] using this.1, ?_⟩
+    intro x hx
+    rcases List.mem_or_eq_of_mem_set hx with h | h
+    · exact this.2 x h
+    · subst h; simp [hMicro, isLoad]
+  | cas t =>
+    cases la with
+    | none =>
+      refine ⟨by simp [hMicro], ?_, thr (by simp [hMicro, HTp])⟩
+      intro a ha; simp [hMicro] at ha; subst ha
+      simp only [HTp] at hpc
+      have := (h1 rfl).1
+      simp_all [hMicro]
+    | some a => exact ⟨by simp [hMicro], by simpa [hMicro] using h2, thr (by simpa [hMicro, HTp] using hpc)⟩
+  | load t =>
+    cases la with
+    | none => have := (h1 rfl).2 _ hmem; simp [isLoad] at this
+    | some a =>
+      have := h2 a rfl
+      simp only [HTp] at hpc
+      have hb : a + w > t := by omega
+      exact ⟨by simp [hMicro, hb], by simpa [hMicro, hb] using h2, thr (by simp [hMicro, hb, HTp])⟩
+
+private theorem hrinv_race (t0 w : Int) : ∀ (sched : List Nat) (sh : HShared) (ts : List HPc), HRInv t0 w sh ts →
+    HRInv t0 w (hRace w (sh, ts) sched).1 (hRace w (sh, ts) sched).2 := by
+  intro sched
+  induction sched with
+  | nil => intro sh ts h; simpa [hRace] using h
+  | cons i rest ih =>
+    intro sh ts h
+    simp only [hRace]
+    cases hti : ts[i]? with
+    | none => simpa using ih sh ts h
+    | some pc => simpa using ih _ _ (hrinv_step t0 w i sh ts pc hti h)
+
+/-- Any number of callers whose clock readings lie inside one probe window, any interleaving:
+    at most one is let through (exactly the one whose CAS on `lastAttempt` succeeds). -/
+theorem health_half_open_race (w t0 : Int) (clocks : List Int) (hc : ∀ t ∈ clocks, t0 ≤ t ∧ t < t0 + w) (sched : List Nat) :
+    (hRace w ({ lastAttempt := none }, clocks.map HPc.cas) sched).1.admitted ≤ 1 := by
+  have h0 : HRInv t0 w { lastAttempt := none } (clocks.map HPc.cas) := by
+    refine ⟨fun _ => ⟨rfl, ?_⟩, by simp, ?_⟩
+    · intro pc hpc; simp at hpc; obtain ⟨t, _, rfl⟩ := hpc; rfl
+    · intro pc hpc; simp at hpc; obtain ⟨t, ht, rfl⟩ := hpc; exact hc t ht
+  have h := hrinv_race t0 w sched _ _ h0
+  cases hl : (hRace w ({ lastAttempt := none }, clocks.map HPc.cas) sched).1.lastAttempt with
+  | none => have := (h.none hl).1; omega
+  | some a => have := (h.some a hl).1; omega
+
+/-! # The property theorems
+
+`holds P k t0 h` is the monitor of clause `k` (see `Olla.Spec.C08`) run over an observed history
+`h` — the term the driver evaluates on the real breakers' answers.  `(m.trace s ops)` is the
+observable trace of a model.  All theorems quantify over every operation history `ops` and every
+start time `t0`. -/
+
+/-! ## Side conditions on the regenerated configuration -/
+
+/-- Thresholds, timeouts and limits of the compiled code are positive. -/
+theorem gen_config_positive :
+    0 < genHCfg.threshold ∧ 0 < genHCfg.timeout ∧ 0 < genHCfg.window ∧
+    0 < genECfg.threshold ∧ 0 < genECfg.timeout ∧
+    0 < genUCfg.failureThreshold ∧ 0 < genUCfg.successThreshold ∧ 0 < genUCfg.openDuration ∧
+    0 < genUCfg.halfOpenRequests ∧ Olla.Gen.Health.unifierEnabled = true := by decide
+
+/-- The health breaker's probe window is not longer than its timeout (needed for one probe per window
+    across a failed probe). -/
+theorem gen_window_le_timeout : genHCfg.window ≤ genHCfg.timeout := by decide
+
+/-- The unification breaker can close: it needs no more successful probes than it admits. -/
+theorem gen_unifier_success_le_halfopen : genUCfg.successThreshold ≤ genUCfg.halfOpenRequests := by decide
+
+/-- What the constructors install, the exported constants, and what the breakers do when probed
+    with rewound clocks (failures until open; smallest rewind that re-admits, 10 ms grid) agree. -/
+theorem gen_config_consistent :
+    Olla.Gen.Health.healthThreshold = Olla.Gen.Health.healthThresholdConst ∧
+    Olla.Gen.Health.healthThreshold = Olla.Gen.Health.healthThresholdObserved ∧
+    Olla.Gen.Health.healthTimeout = Olla.Gen.Health.healthTimeoutConst ∧
+    Olla.Gen.Health.healthTimeout = Olla.Gen.Health.healthTimeoutObserved ∧
+    Olla.Gen.Health.engineTimeout = Olla.Gen.Health.healthTimeoutConst ∧
+    Olla.Gen.Health.unifierOpenDuration = Olla.Gen.Health.unifierOpenDurationObserved := by decide
+
+/-! ## health.CircuitBreaker -/
+
+/-- All clauses except the probe limit, both variants, every configuration. -/
+theorem health_clauses (v : Variant) (c : HCfg) (k : Clause) (hk : k ≠ .probeLimit) (t0 : Int) (ops : List Op) :
+    holds (healthParams c) k t0 ((healthM v c).trace (HealthCB.init t0) ops) = true :=
+  holdsFrom_of_inv (healthM v c) (healthParams c) k (HInv v c)
+    (fun g s op h => ⟨health_clause v c g s op h k hk, hinv_step v c g s op h⟩) ops _ _ (hinv_init v c t0)
+
+/-- Opens only after `threshold` consecutive failures with no success in between; closed ⇒ admits. -/
+theorem health_opens_only_after_threshold (v : Variant) (c : HCfg) (t0 : Int) (ops : List Op) :
+    holds (healthParams c) .opensOnly t0 ((healthM v c).trace (HealthCB.init t0) ops) = true :=
+  health_clauses v c _ (by decide) t0 ops
+/-- While open, nothing is let through until `timeout` has elapsed since the last failure. -/
+theorem health_holds_while_open (v : Variant) (c : HCfg) (t0 : Int) (ops : List Op) :
+    holds (healthParams c) .holds t0 ((healthM v c).trace (HealthCB.init t0) ops) = true :=
+  health_clauses v c _ (by decide) t0 ops
+/-- After the timeout a probe is admitted whenever none was admitted during the last window. -/
+theorem health_admits_after_timeout (v : Variant) (c : HCfg) (t0 : Int) (ops : List Op) :
+    holds (healthParams c) .admits t0 ((healthM v c).trace (HealthCB.init t0) ops) = true :=
+  health_clauses v c _ (by decide) t0 ops
+theorem health_closes_on_success (v : Variant) (c : HCfg) (t0 : Int) (ops : List Op) :
+    holds (healthParams c) .closes t0 ((healthM v c).trace (HealthCB.init t0) ops) = true :=
+  health_clauses v c _ (by decide) t0 ops
+theorem health_reopens_on_failed_probe (v : Variant) (c : HCfg) (t0 : Int) (ops : List Op) :
+    holds (healthParams c) .reopens t0 ((healthM v c).trace (HealthCB.init t0) ops) = true :=
+  health_clauses v c _ (by decide) t0 ops
+theorem health_success_clears (v : Variant) (c : HCfg) (t0 : Int) (ops : List Op) :
+    holds (healthParams c) .clears t0 ((healthM v c).trace (HealthCB.init t0) ops) = true :=
+  health_clauses v c _ (by decide) t0 ops
+/-- From every reachable state: tick (> timeout); ask; succ ⇒ closed. -/
+theorem health_never_stuck (v : Variant) (c : HCfg) (t0 : Int) (ops : List Op) :
+    holds (healthParams c) .neverStuck t0 ((healthM v c).trace (HealthCB.init t0) ops) = true :=
+  health_clauses v c _ (by decide) t0 ops
+
+/-- **At most one probe per window** — full strength, for the repaired breaker
+    (fixes/C08-health-probe-window.patch: the stale `lastAttempt` is advanced by CAS). -/
+theorem health_one_probe_per_window (c : HCfg) (hw : c.window ≤ c.timeout) (t0 : Int) (ops : List Op) :
+    holds (healthParams c) .probeLimit t0 ((healthM .fixed c).trace (HealthCB.init t0) ops) = true :=
+  holdsFrom_of_inv (healthM .fixed c) (healthParams c) .probeLimit (HInv .fixed c)
+    (fun g s op h => ⟨health_clause_probeLimit_fixed c hw g s op h, hinv_step .fixed c g s op h⟩) ops _ _ (hinv_init .fixed c t0)
+
+/-- The state in which the pinned `IsOpen` answers "go ahead" without claiming the probe slot:
+    open, timeout elapsed, and the recorded probe attempt is at least one window old. -/
+def staleProbe (c : HCfg) (s : HealthCB) : Bool :=
+  s.isOpen && decide (s.lastFailure + c.timeout < s.now) &&
+    (match s.lastAttempt with | some a => !decide (a + c.window > s.now) | none => false)
+
+/-- No `ask` of the history meets a stale probe (i.e. every admitted probe reported its outcome
+    before the window ran out). -/
+def noStaleAsk (c : HCfg) : HealthCB → List Op → Bool
+  | _, [] => true
+  | s, op :: ops => (!(op == .ask) || !staleProbe c s) && noStaleAsk c (HealthCB.step .pinned c s op).1 ops
+
+private theorem health_step_eq_of_not_stale (c : HCfg) (s : HealthCB) (op : Op)
+    (h : (!(op == .ask) || !staleProbe c s) = true) : HealthCB.step .pinned c s op = HealthCB.step .fixed c s op := by
+  cases op <;> try rfl
+  obtain ⟨f, lf, la, io, now⟩ := s
+  cases io <;> cases la <;> simp_all [HealthCB.step, HealthCB.isOpenCall, staleProbe]
+  rename_i a
+  by_cases h1 : lf + c.timeout < now
+  · by_cases h2 : now < a + c.window
+    · simp [h1, h2]
+    · rcases h with h | h <;> omega
+  · simp [h1]
+
+private theorem health_trace_eq_of_noStale (c : HCfg) : ∀ (ops : List Op) (s : HealthCB), noStaleAsk c s ops = true →
+    (healthM .pinned c).trace s ops = (healthM .fixed c).trace s ops := by
+  intro ops
+  induction ops with
+  | nil => intro s _; rfl
+  | cons op ops ih =>
+    intro s h
+    simp only [noStaleAsk, Bool.and_eq_true] at h
+    have he := health_step_eq_of_not_stale c s op h.1
+    simp only [Machine.trace, Machine.obs, healthM] at *
+    rw [he]
+    rw [he] at h
+    rw [ih _ h.2]
+
+/-- Pinned tree: one probe per window holds for the histories in which every probe reports
+    before its window has run out. -/
+theorem health_one_probe_per_window_partial (c : HCfg) (hw : c.window ≤ c.timeout) (t0 : Int) (ops : List Op)
+    (h : noStaleAsk c (HealthCB.init t0) ops = true) :
+    holds (healthParams c) .probeLimit t0 ((healthM .pinned c).trace (HealthCB.init t0) ops) = true := by
+  rw [health_trace_eq_of_noStale c ops _ h]
+  exact health_one_probe_per_window c hw t0 ops
+
+/-- `threshold` failures, timeout passes, a probe is admitted and never reports; 1.3 s later
+    every caller is let through. -/
+def healthProbeWitness : List Op :=
+  List.replicate genHCfg.threshold .fail ++ [.tick (genHCfg.timeout.toNat + 1500000000), .ask, .tick (genHCfg.window.toNat + 300000000), .ask, .ask]
+
+/-- **Pinned tree violates "at most one probe per second"** (DESIGN §4 #6). -/
+theorem health_one_probe_per_window_witness :
+    ¬ holds (healthParams genHCfg) .probeLimit 0 ((healthM .pinned genHCfg).trace (HealthCB.init 0) healthProbeWitness) = true := by
+  decide
+
+/-- The same history on the repaired breaker is fine (non-vacuity of the fix). -/
+example : holds (healthParams genHCfg) .probeLimit 0 ((healthM .fixed genHCfg).trace (HealthCB.init 0) healthProbeWitness) = true := by
+  decide
+
+/-! ## olla engine breaker -/
+
+theorem engine_clauses (c : ECfg) (k : Clause) (t0 : Int) (ops : List Op) :
+    holds (engineParams c) k t0 ((engineM c).trace (EngineCB.init t0) ops) = true :=
+  holdsFrom_of_inv (engineM c) (engineParams c) k (EInv c)
+    (fun g s op h => ⟨engine_clause c g s op h k, einv_step c g s op h⟩) ops _ _ (einv_init c t0)
+
+theorem engine_opens_only_after_threshold (c : ECfg) (t0 : Int) (ops : List Op) :
+    holds (engineParams c) .opensOnly t0 ((engineM c).trace (EngineCB.init t0) ops) = true := engine_clauses c _ t0 ops
+theorem engine_holds_while_open (c : ECfg) (t0 : Int) (ops : List Op) :
+    holds (engineParams c) .holds t0 ((engineM c).trace (EngineCB.init t0) ops) = true := engine_clauses c _ t0 ops
+theorem engine_admits_after_timeout (c : ECfg) (t0 : Int) (ops : List Op) :
+    holds (engineParams c) .admits t0 ((engineM c).trace (EngineCB.init t0) ops) = true := engine_clauses c _ t0 ops
+theorem engine_closes_on_success (c : ECfg) (t0 : Int) (ops : List Op) :
+    holds (engineParams c) .closes t0 ((engineM c).trace (EngineCB.init t0) ops) = true := engine_clauses c _ t0 ops
+theorem engine_reopens_on_failed_probe (c : ECfg) (t0 : Int) (ops : List Op) :
+    holds (engineParams c) .reopens t0 ((engineM c).trace (EngineCB.init t0) ops) = true := engine_clauses c _ t0 ops
+theorem engine_success_clears (c : ECfg) (t0 : Int) (ops : List Op) :
+    holds (engineParams c) .clears t0 ((engineM c).trace (EngineCB.init t0) ops) = true := engine_clauses c _ t0 ops
+theorem engine_never_stuck (c : ECfg) (t0 : Int) (ops : List Op) :
+    holds (engineParams c) .neverStuck t0 ((engineM c).trace (EngineCB.init t0) ops) = true := engine_clauses c _ t0 ops
+
+/-! ## unifier.CircuitBreaker -/
+
+/-- All clauses except "a success clears the failure count", both variants. -/
+theorem unifier_clauses (v : Variant) (c : UCfg) (k : Clause) (hk : k ≠ .clears ∨ v = .fixed) (t0 : Int) (ops : List Op) :
+    holds (unifierParams c) k t0 ((unifierM v c).trace (UnifierCB.init t0) ops) = true :=
+  holdsFrom_of_inv (unifierM v c) (unifierParams c) k (UInv c)
+    (fun g s op h => ⟨unifier_clause v c g s op h k hk, uinv_step v c g s op h⟩) ops _ _ (uinv_init c t0)
+
+theorem unifier_opens_only_after_threshold (v : Variant) (c : UCfg) (t0 : Int) (ops : List Op) :
+    holds (unifierParams c) .opensOnly t0 ((unifierM v c).trace (UnifierCB.init t0) ops) = true :=
+  unifier_clauses v c _ (.inl (by decide)) t0 ops
+theorem unifier_holds_while_open (v : Variant) (c : UCfg) (t0 : Int) (ops : List Op) :
+    holds (unifierParams c) .holds t0 ((unifierM v c).trace (UnifierCB.init t0) ops) = true :=
+  unifier_clauses v c _ (.inl (by decide)) t0 ops
+theorem unifier_admits_after_timeout (v : Variant) (c : UCfg) (t0 : Int) (ops : List Op) :
+    holds (unifierParams c) .admits t0 ((unifierM v c).trace (UnifierCB.init t0) ops) = true :=
+  unifier_clauses v c _ (.inl (by decide)) t0 ops
+/-- Sequential histories: at most `HalfOpenRequests` probes per half-open episode. -/
+theorem unifier_at_most_N_probes (v : Variant) (c : UCfg) (t0 : Int) (ops : List Op) :
+    holds (unifierParams c) .probeLimit t0 ((unifierM v c).trace (UnifierCB.init t0) ops) = true :=
+  unifier_clauses v c _ (.inl (by decide)) t0 ops
+theorem unifier_closes_on_success (v : Variant) (c : UCfg) (t0 : Int) (ops : List Op) :
+    holds (unifierParams c) .closes t0 ((unifierM v c).trace (UnifierCB.init t0) ops) = true :=
+  unifier_clauses v c _ (.inl (by decide)) t0 ops
+theorem unifier_reopens_on_failed_probe (v : Variant) (c : UCfg) (t0 : Int) (ops : List Op) :
+    holds (unifierParams c) .reopens t0 ((unifierM v c).trace (UnifierCB.init t0) ops) = true :=
+  unifier_clauses v c _ (.inl (by decide)) t0 ops
+theorem unifier_never_stuck (v : Variant) (c : UCfg) (t0 : Int) (ops : List Op) :
+    holds (unifierParams c) .neverStuck t0 ((unifierM v c).trace (UnifierCB.init t0) ops) = true :=
+  unifier_clauses v c _ (.inl (by decide)) t0 ops
+
+/-- **A success always clears the failure count** — full strength for the repaired breaker
+    (fixes/C08-unifier-success-while-open.patch). -/
+theorem unifier_success_clears (c : UCfg) (t0 : Int) (ops : List Op) :
+    holds (unifierParams c) .clears t0 ((unifierM .fixed c).trace (UnifierCB.init t0) ops) = true :=
+  unifier_clauses .fixed c _ (.inr rfl) t0 ops
+
+/-- No success is recorded while the breaker reports `open`. -/
+def noSuccWhileOpen (c : UCfg) : UnifierCB → List Op → Bool
+  | _, [] => true
+  | s, op :: ops => (!(op == .succ) || !(s.state == .opened)) && noSuccWhileOpen c (UnifierCB.step .pinned c s op).1 ops
+
+private theorem unifier_step_eq (c : UCfg) (s : UnifierCB) (op : Op)
+    (h : (!(op == .succ) || !(s.state == .opened)) = true) : UnifierCB.step .pinned c s op = UnifierCB.step .fixed c s op := by
+  cases op <;> try rfl
+  obtain ⟨st, f, su, ho, lf, now⟩ := s
+  cases st <;> simp_all [UnifierCB.step, UnifierCB.recordSuccess]
+
+private theorem unifier_trace_eq (c : UCfg) : ∀ (ops : List Op) (s : UnifierCB), noSuccWhileOpen c s ops = true →
+    (unifierM .pinned c).trace s ops = (unifierM .fixed c).trace s ops := by
+  intro ops
+  induction ops with
+  | nil => intro s _; rfl
+  | cons op ops ih =>
+    intro s h
+    simp only [noSuccWhileOpen, Bool.and_eq_true] at h
+    have he := unifier_step_eq c s op h.1
+    simp only [Machine.trace, Machine.obs, unifierM] at *
+    rw [he]
+    rw [he] at h
+    rw [ih _ h.2]
+
+/-- Pinned tree: a success clears the failure count unless it is recorded while the breaker is open. -/
+theorem unifier_success_clears_partial (c : UCfg) (t0 : Int) (ops : List Op)
+    (h : noSuccWhileOpen c (UnifierCB.init t0) ops = true) :
+    holds (unifierParams c) .clears t0 ((unifierM .pinned c).trace (UnifierCB.init t0) ops) = true := by
+  rw [unifier_trace_eq c ops _ h]
+  exact unifier_success_clears c t0 ops
+
+def unifierClearsWitness : List Op := List.replicate genUCfg.failureThreshold .fail ++ [.succ]
+
+/-- **Pinned tree: a success recorded while open leaves the failure count untouched** (DESIGN §4 #7). -/
+theorem unifier_success_clears_witness :
+    ¬ holds (unifierParams genUCfg) .clears 0 ((unifierM .pinned genUCfg).trace (UnifierCB.init 0) unifierClearsWitness) = true := by
+  decide
+
+/-- A client that asks, and reports the outcome of every request it was allowed to make,
+    before anybody else asks (`true` = the request succeeded). -/
+inductive Round where
+  | wait (d : Nat)
+  | call (ok : Bool)
+
+def clientStep (v : Variant) (c : UCfg) (s : UnifierCB) : Round → UnifierCB
+  | .wait d  => (UnifierCB.step v c s (.tick d)).1
+  | .call ok =>
+    let r := s.allow c
+    if r.2 then (if ok then r.1.recordSuccess v c else r.1.recordFailure c) else r.1
+
+def clientRun (v : Variant) (c : UCfg) : UnifierCB → List Round → UnifierCB
+  | s, [] => s
+  | s, r :: rs => clientRun v c (clientStep v c s r) rs
+
+private def SeqInv (c : UCfg) (s : UnifierCB) : Prop :=
+  (s.state ≠ .closed → s.lastFailure ≤ s.now) ∧
+  (s.state = .opened → s.halfOpen = 0) ∧
+  (s.state = .halfOpen → s.halfOpen = s.successes ∧ s.successes < c.successThreshold)
+
+private theorem seqInv_step (v : Variant) (c : UCfg) (hc : c.successThreshold ≤ c.halfOpenRequests) (hpos : 0 < c.successThreshold) (s : UnifierCB) (r : Round)
+    (h : SeqInv c s) : SeqInv c (clientStep v c s r) := by
+  obtain ⟨st, f, su, ho, lf, now⟩ := s
+  obtain ⟨h1, h2, h3⟩ := h
+  cases r with
+  | wait d => cases st <;> simp_all [SeqInv, clientStep, UnifierCB.step] <;> omega
+  | call ok =>
+    cases st
+    · cases ok
+      · by_cases hf : f + 1 ≥ c.failureThreshold <;>
+          simp_all [SeqInv, clientStep, UnifierCB.allow, UnifierCB.recordFailure, UnifierCB.toOpen, -Nat.not_le]
+      · simp_all [SeqInv, clientStep, UnifierCB.allow, UnifierCB.recordSuccess]
+    · by_cases hto : now - lf > c.openDuration
+      · have hn : 1 ≤ c.halfOpenRequests := by omega
+        cases ok
+        · simp_all [SeqInv, clientStep, UnifierCB.allow, UnifierCB.allowHalfOpen, UnifierCB.toHalfOpen, UnifierCB.recordFailure, UnifierCB.toOpen]
+        · by_cases hs : 0 + 1 ≥ c.successThreshold <;>
+            simp_all [SeqInv, clientStep, UnifierCB.allow, UnifierCB.allowHalfOpen, UnifierCB.toHalfOpen, UnifierCB.recordSuccess, UnifierCB.toClosed, -Nat.not_le]
+          all_goals omega
+      · simp_all [SeqInv, clientStep, UnifierCB.allow, -Int.not_lt]
+    · have hn : ho + 1 ≤ c.halfOpenRequests := by have := h3 rfl; simp only at this; omega
+      cases ok
+      · simp_all [SeqInv, clientStep, UnifierCB.allow, UnifierCB.allowHalfOpen, UnifierCB.recordFailure, UnifierCB.toOpen]
+      · by_cases hs : su + 1 ≥ c.successThreshold <;>
+          simp_all [SeqInv, clientStep, UnifierCB.allow, UnifierCB.allowHalfOpen, UnifierCB.recordSuccess, UnifierCB.toClosed, -Nat.not_le]
+        all_goals omega
+
+private theorem seqInv_run (v : Variant) (c : UCfg) (hc : c.successThreshold ≤ c.halfOpenRequests) (hpos : 0 < c.successThreshold) :
+    ∀ (rs : List Round) (s : UnifierCB), SeqInv c s → SeqInv c (clientRun v c s rs) := by
+  intro rs
+  induction rs with
+  | nil => intro s h; exact h
+  | cons r rs ih => intro s h; exact ih _ (seqInv_step v c hc hpos s r h)
+
+private theorem seq_recover (v : Variant) (c : UCfg) (hc : c.successThreshold ≤ c.halfOpenRequests) :
+    ∀ (k : Nat) (s : UnifierCB), SeqInv c s → (s.state = .opened → s.now - s.lastFailure > c.openDuration) →
+      (s.state = .halfOpen → s.successes + k ≥ c.successThreshold) → (s.state = .opened → k ≥ c.successThreshold) → 0 < c.successThreshold →
+      (clientRun v c s (List.replicate k (.call true))).state = .closed ∨ k = 0 ∧ s.state ≠ .closed := by
+  intro k
+  induction k with
+  | zero => intro s _ _ _ _ _; by_cases h : s.state = .closed <;> simp [clientRun, h]
+  | succ k ih =>
+    intro s hi ho hh hk hpos
+    simp only [List.replicate_succ, clientRun]
+    have hi' := seqInv_step v c hc hpos s (.call true) hi
+    obtain ⟨st, f, su, hoc, lf, now⟩ := s
+    obtain ⟨h1, h2, h3⟩ := hi
+    have key : ∀ s', clientStep v c ⟨st, f, su, hoc, lf, now⟩ (.call true) = s' →
+        (s'.state = .closed) ∨ (s'.state = .halfOpen ∧ s'.successes + k ≥ c.successThreshold) := by
+      intro s' hs'
+      subst hs'
+      cases st
+      · left; simp [clientStep, UnifierCB.allow, UnifierCB.recordSuccess]
+      · have hto := ho rfl
+        have hn : 1 ≤ c.halfOpenRequests := by omega
+        have hk' := hk rfl
+        simp only at hto
+        by_cases hs : 0 + 1 ≥ c.successThreshold
+        · left; simp_all [clientStep, UnifierCB.allow, UnifierCB.allowHalfOpen, UnifierCB.toHalfOpen, UnifierCB.recordSuccess, UnifierCB.toClosed]
+        · right; simp_all [clientStep, UnifierCB.allow, UnifierCB.allowHalfOpen, UnifierCB.toHalfOpen, UnifierCB.recordSuccess, UnifierCB.toClosed, -Nat.not_le]
+          omega
+      · have := h3 rfl
+        have hh' := hh rfl
+        have hn : hoc + 1 ≤ c.halfOpenRequests := by simp only at this; omega
+        simp only at hh'
+        by_cases hs : su + 1 ≥ c.successThreshold
+        · left; simp_all [clientStep, UnifierCB.allow, UnifierCB.allowHalfOpen, UnifierCB.recordSuccess, UnifierCB.toClosed]
+        · right; simp_all [clientStep, UnifierCB.allow, UnifierCB.allowHalfOpen, UnifierCB.recordSuccess, UnifierCB.toClosed, -Nat.not_le]
+          omega
+    rcases key _ rfl with hcl | ⟨hhalf, hsu⟩
+    · -- closed stays closed under successful calls
+      left
+      have := ih _ hi' (by simp [hcl]) (by simp [hcl]) (by simp [hcl]) hpos
+      rcases this with h | ⟨_, h⟩
+      · exact h
+      · exact absurd hcl h
+    · have := ih _ hi' (by simp [hhalf]) (fun _ => hsu) (by simp [hhalf]) hpos
+      rcases this with h | ⟨hk0, _⟩
+      · left; exact h
+      · subst hk0; have := hi'.2.2 hhalf; omega
+
+/-- **Never stuck, with permission respected.**  From every state a well-behaved client can reach
+    (it reports the outcome of every request it was allowed to make), once the protected endpoint
+    works again: after `openDuration` has passed, `successThreshold` consecutive successful calls —
+    each of which IS let through — close the breaker.  Needs `successThreshold ≤ halfOpenRequests`. -/
+theorem unifier_never_stuck_client (v : Variant) (c : UCfg) (hc : c.successThreshold ≤ c.halfOpenRequests)
+    (hpos : 0 < c.successThreshold) (t0 : Int) (history : List Round) :
+    (clientRun v c (clientRun v c (UnifierCB.init t0) history)
+      (.wait (c.openDuration.toNat + 1) :: List.replicate c.successThreshold (.call true))).state = .closed := by
+  have hi := seqInv_run v c hc hpos history (UnifierCB.init t0) (by simp [SeqInv, UnifierCB.init])
+  generalize clientRun v c (UnifierCB.init t0) history = s at hi
+  have hi' := seqInv_step v c hc hpos s (.wait (c.openDuration.toNat + 1)) hi
+  simp only [clientRun]
+  have := seq_recover v c hc c.successThreshold _ hi'
+    (by
+      obtain ⟨st, f, su, ho, lf, now⟩ := s
+      intro hst
+      have := hi.1
+      simp_all [clientStep, UnifierCB.step]
+      omega)
+    (by intro _; omega) (by intro _; omega) hpos
+  rcases this with h | ⟨h, _⟩
+  · exact h
+  · omega
+
+/-! ## Instances at the regenerated configuration (what the driver compares the real breakers with) -/
+
+theorem health_gen (k : Clause) (hk : k ≠ .probeLimit) (t0 : Int) (ops : List Op) :
+    holds (healthParams genHCfg) k t0 ((healthM activeHealth genHCfg).trace (HealthCB.init t0) ops) = true :=
+  health_clauses activeHealth genHCfg k hk t0 ops
+
+theorem health_one_probe_per_window_gen_fixed (t0 : Int) (ops : List Op) :
+    holds (healthParams genHCfg) .probeLimit t0 ((healthM .fixed genHCfg).trace (HealthCB.init t0) ops) = true :=
+  health_one_probe_per_window genHCfg gen_window_le_timeout t0 ops
+
+theorem engine_gen (k : Clause) (t0 : Int) (ops : List Op) :
+    holds (engineParams genECfg) k t0 ((engineM genECfg).trace (EngineCB.init t0) ops) = true :=
+  engine_clauses genECfg k t0 ops
+
+theorem unifier_gen (k : Clause) (hk : k ≠ .clears) (t0 : Int) (ops : List Op) :
+    holds (unifierParams genUCfg) k t0 ((unifierM activeUnifier genUCfg).trace (UnifierCB.init t0) ops) = true :=
+  unifier_clauses activeUnifier genUCfg k (.inl hk) t0 ops
+
+theorem unifier_never_stuck_client_gen (v : Variant) (t0 : Int) (history : List Round) :
+    (clientRun v genUCfg (clientRun v genUCfg (UnifierCB.init t0) history)
+      (.wait (genUCfg.openDuration.toNat + 1) :: List.replicate genUCfg.successThreshold (.call true))).state = .closed :=
+  unifier_never_stuck_client v genUCfg gen_unifier_success_le_halfopen (by decide) t0 history
+
+/-- 32 callers (any number), any interleaving, repaired unification breaker: at most `HalfOpenRequests`. -/
+theorem unifier_half_open_race_fixed_gen (m : Nat) (sched : List Nat) :
+    (uRace .fixed genUCfg.halfOpenRequests (uRaceInit m) sched).1.admitted ≤ genUCfg.halfOpenRequests :=
+  unifier_half_open_race_fixed _ m sched
+
+/-! ## Non-vacuity -/
+
+example : (healthM .pinned genHCfg).phase ((healthM .pinned genHCfg).run (HealthCB.init 0) (List.replicate 3 .fail)) = .opened := by decide
+example : (engineM genECfg).phase ((engineM genECfg).run (EngineCB.init 0) (List.replicate 5 .fail ++ [.tick 31000000000, .ask])) = .halfOpen := by decide
+example : ((unifierM .pinned genUCfg).run (UnifierCB.init 0) (List.replicate 5 .fail ++ [.tick 61000000000, .ask, .ask, .ask, .ask])).halfOpen = 4 := by decide
+example : (clientRun .pinned genUCfg (UnifierCB.init 0) (List.replicate 5 (.call false))).state = .opened := by decide
 
 end Olla.Props.C08
